@@ -697,6 +697,14 @@ def filter_strategy():
     )
 
 
+def _known_f19(facet, case, violation):
+    # field names are written raw: a name containing a line break breaks the compact form's single line
+    m = case.get("message") or {}
+    return facet == "format" and violation.kind == "compact-not-one-line" and any(isinstance(k, str) and ("\n" in k or "\r" in k) for k in m)
+
+
+KNOWN = {"F19-line-break-in-field-name": _known_f19}
+
 FACETS = [
     Facet("format", format_strategy, check_format, classify_format, quick=2000, thorough=60000),
     Facet("real", real_strategy, check_real, classify_real, quick=150, thorough=3000),
